@@ -3,6 +3,7 @@ import Gbo.Proofs.Provenance
 import Gbo.Proofs.SweepProvenance
 import Gbo.Props.C13
 import Gbo.Proofs.EndToEnd
+import Gbo.Proofs.FillVertices
 /-
   C04 — output geometry comes from the inputs.  Proved here: every ring the model hands to the result is
   closed (what `Polygon::new` / `LineString::close` guarantees) and on the shortcut path the rings are the
@@ -94,6 +95,18 @@ theorem C04_vertices_generated (ar : Arith) (cfg : Cfg) (subject clipping : MPol
     ∀ poly, poly ∈ out.result → ∀ ring, ring ∈ poly.ext :: poly.holes → ∀ p, p ∈ ring →
       Gen ar (InputVertex subject clipping op) p :=
   booleanOperation_vertices ar cfg subject clipping op out (C13_fillQueue subject clipping op).1 h hnt
+
+/-- … stated with the operands themselves: the generators are the vertices of the rings of `subject` and
+    `clipping` -/
+theorem C04_vertices_from_operands (ar : Arith) (cfg : Cfg) (subject clipping : MPoly) (op : Op) (out : RunOut)
+    (h : booleanOperation ar cfg subject clipping op = .ok out) (hnt : out.trivial = false) :
+    ∀ poly, poly ∈ out.result → ∀ ring, ring ∈ poly.ext :: poly.holes → ∀ p, p ∈ ring →
+      Gen ar (VertexOf (subject ++ clipping)) p := by
+  intro poly hpoly ring hring p hp
+  refine Gen.mono ?_ p (C04_vertices_generated ar cfg subject clipping op out h hnt poly hpoly ring hring p hp)
+  rintro q ⟨i, hi, hq⟩
+  rw [← hq]
+  exact fillQueue_vertices subject clipping op i hi
 
 /-- every ring returned on the sweep path is closed (first vertex = last vertex) or empty -/
 theorem C04_rings_closed (ar : Arith) (cfg : Cfg) (subject clipping : MPoly) (op : Op) (out : RunOut)
